@@ -394,6 +394,56 @@ def _legend(cx, minimizer, fixed, latex):
             cx.eq(tag + ":probability-is-the-held-one", toks[0].src, prob)
 
 
+def sc_legend_multi(cx, minimizer, latex):
+    """legend of a multi-fit plot: the 'global' goodness-of-fit line shows the multi-fit's gof, ndf and gof/ndf; every
+    member block shows the member's own"""
+    import sys
+
+    import kafe2.fit._base.plot  # noqa: F401
+    import kafe2.fit.xy.plot  # noqa: F401
+    from props.C11 import Multi
+
+    if cx.symbolic:
+        numfmt.enable(True, tokens_only=True)
+    try:
+        mu = Multi(cx, ["xyab", "xybc"], minimizer=minimizer, n=3)
+        mf = mu.mf
+        mu.set_point(tag="start")
+        mu.assume_pd()
+        mf.do_fit()
+
+        G, N = mf.goodness_of_fit, mf.ndf
+        P = sys.modules["kafe2.fit._base.plot"].Plot
+        plot = P(mf)
+        tag = "legend-multi/%s%s" % (minimizer, "/latex" if latex else "")
+        for k, pb in enumerate(mu.members):
+            ad = _adapter(pb.fit)
+            text = plot._get_fit_info(ad, format_as_latex=latex, asymmetric_parameter_errors=False)
+            if not cx.symbolic:
+                import re
+
+                text = re.sub(r"(-?\d*\.?\d*)\\times10\^\{(-?\d*)\}", lambda m_: "%se%s" % (m_.group(1), m_.group(2) or "0"), text)
+            rows = [ln for ln in text.split("\n") if "ndf" in ln]
+            cx.concrete(tag + ":member%d:two-goodness-of-fit-lines(member,global)" % k, len(rows) == 2, info=text[-500:])
+            if len(rows) != 2:
+                continue
+            for which, row, g, n_ in (("member", rows[0], pb.fit.goodness_of_fit, pb.fit.ndf), ("global", rows[1], G, N)):
+                body = row.split("=", 1)[1]
+                toks = numfmt.parse(body) if cx.symbolic else [numfmt.Tok(None, None, *numfmt._literal(m.group(1)), "literal") for m in numfmt.NUM_RE.finditer(body)]
+                cx.concrete(tag + ":member%d:%s-line-numerals" % (k, which), len(toks) == 3, info=row)
+                if len(toks) != 3:
+                    continue
+                cx.concrete(tag + ":member%d:%s-ndf-is-the-held-one" % (k, which), toks[1].d == n_, info="%s (held ndf %r)" % (row, n_))
+                if cx.symbolic:
+                    cx.eq(tag + ":member%d:%s-gof-is-the-held-one" % (k, which), toks[0].src, g)
+                    cx.eq(tag + ":member%d:%s-gof/ndf-is-the-held-one" % (k, which), toks[2].src, g / n_)
+                else:
+                    cx.concrete(tag + ":member%d:%s-gof-within-half-unit" % (k, which), abs(toks[0].d - Fraction(float(g))) <= Fraction(toks[0].u) / 2 or latex, info=row)
+                    cx.concrete(tag + ":member%d:%s-gof/ndf-within-half-unit" % (k, which), abs(toks[2].d - Fraction(float(g)) / n_) <= Fraction(toks[2].u) / 2 or latex, info=row)
+    finally:
+        numfmt.enable(False)
+
+
 def sc_plot_concrete(cx, ftype, options):
     """concrete-only: Plot.plot() end to end on the Agg back end; artists compared with the fit's numbers"""
     import matplotlib
@@ -516,6 +566,11 @@ def scenarios(tier, seed):
                 if q and fixed and not latex:
                     continue
                 S.append(Scenario("legend/%s/%s%s" % (minimizer, "fixed" if fixed else "free", "/latex" if latex else ""), sc_legend, family="legend/" + minimizer, params=dict(minimizer=minimizer, fixed=fixed, latex=latex)))
+    for minimizer in ("scipy", "iminuit"):
+        for latex in (False, True):
+            if q and (minimizer == "scipy") == latex:
+                continue
+            S.append(Scenario("legend-multi/%s%s" % (minimizer, "/latex" if latex else ""), sc_legend_multi, family="legend-multi", params=dict(minimizer=minimizer, latex=latex)))
     for ftype in ("xy", "indexed", "hist"):
         for options in (dict(), dict(residual=True), dict(ratio=True), dict(pull=True)):
             S.append(Scenario("plot/%s/%s" % (ftype, "+".join(sorted(options)) or "plain"), sc_plot_concrete, family="plot/" + ftype, params=dict(ftype=ftype, options=options), concrete_only=True))
